@@ -33,7 +33,6 @@ import (
 	"os"
 	"path/filepath"
 	"runtime/debug"
-	"runtime/pprof"
 	"sort"
 	"strings"
 	"time"
@@ -1421,15 +1420,11 @@ func (s *verifC14Suite) TestVerifC14(c *C) {
 	}
 
 	if os.Getenv("VERIF_C14_BENCH") != "" { // calibration aid: cost of a fixture and of a request
-		pf, _ := os.Create(filepath.Join(eng.WorkDir(), "c14.prof"))
-		pprof.StartCPUProfile(pf)
 		t0 := time.Now()
 		for i := 0; i < 100; i++ {
 			w := c14New(c, menu)
 			w.close()
 		}
-		pprof.StopCPUProfile()
-		pf.Close()
 		t1 := time.Now()
 		for i := 0; i < 100; i++ {
 			w := c14New(c, menu)
@@ -1450,22 +1445,20 @@ func (s *verifC14Suite) TestVerifC14(c *C) {
 		names = append(names, o.Name)
 	}
 	r.Info("menu", names)
-	mmDir := filepath.Join(eng.WorkDir(), "shards", "C14")
-	os.MkdirAll(mmDir, 0755)
-	if os.Getenv("VERIF_SHARD") == "" {
-		for _, pat := range []string{"mismatch-*.txt", "L*-*.json", "L*-*.json.tmp", "violation-found"} {
-			old, _ := filepath.Glob(filepath.Join(mmDir, pat))
-			for _, f := range old {
-				os.Remove(f)
-			}
-		}
+	// directory through which the workers of this run talk to each other (level files, stop flag, mismatch notes):
+	// named after the parent process so that concurrent runs (e.g. --mutants next to a plain run) do not mix
+	mmDir := os.Getenv("VERIF_C14_RUNDIR")
+	if mmDir == "" {
+		mmDir = filepath.Join(eng.WorkDir(), "shards", "C14", fmt.Sprintf("run-%d", os.Getpid()))
+		os.RemoveAll(mmDir)
+		os.Setenv("VERIF_C14_RUNDIR", mmDir)
+	}
+	if err := os.MkdirAll(mmDir, 0755); err != nil {
+		eng.HarnessError("%v", err)
 	}
 	if r.Sharded(16) {
-		old, _ := filepath.Glob(filepath.Join(mmDir, "L*-*.json"))
-		for _, f := range old {
-			os.Remove(f)
-		}
 		if n := r.Count("replay_divergences"); n > 0 {
+			os.RemoveAll(mmDir)
 			eng.HarnessError("%d replays of a path prefix did not reproduce the recorded (or predicted) state", n)
 		}
 		if n := r.Count("model_mismatches"); n > 0 {
@@ -1474,8 +1467,10 @@ func (s *verifC14Suite) TestVerifC14(c *C) {
 				b, _ := os.ReadFile(f)
 				fmt.Print(string(b))
 			}
+			os.RemoveAll(mmDir)
 			eng.HarnessError("%d requests disagreed with the reference model in a way that is no violation of the statement (spurious refusal, menu entry invalid on the idle system): the model needs calibration", n)
 		}
+		os.RemoveAll(mmDir)
 		c14Finish(r, c14Rule)
 	}
 	shard, nshards := r.ShardIndex()
